@@ -49,10 +49,126 @@ let c07 (lines : string list) =
        | _ -> failwith ("c07: bad line: " ^ l)) in
   go None [] lines
 
+
+(* ---------------------------------------------------------------- data plane (C01 C02 C05 C08 ...) *)
+(* token cursor *)
+type cur = { mutable toks : string list }
+let next c = match c.toks with [] -> failwith "line too short" | t :: r -> c.toks <- r; t
+let next_int c = int_of_string (next c)
+let next_str c : n list =
+  let len = next_int c in
+  let rec go i acc = if i = 0 then List.rev acc else go (i - 1) (n_of_int (next_int c) :: acc) in
+  go len []
+let rec next_expr c : expr =
+  match next c with
+  | "E" -> let col = next_str c in let v = next_str c in Eq0 (col, v)
+  | "N" -> Not (next_expr c)
+  | "A" -> let k = next_int c in And (List.init k (fun _ -> next_expr c))
+  | "O" -> let k = next_int c in Or (List.init k (fun _ -> next_expr c))
+  | t -> failwith ("bad expr token " ^ t)
+
+let pr_str (s : n list) =
+  pr " %d" (List.length s); List.iter (fun b -> pr " %d" (int_of_n b)) s
+
+let pr_result tag qid (r : result outcome) =
+  pr "%s %s" tag qid;
+  (match r with
+   | Ok r ->
+     pr " OK %d %d" (int_of_n r.r_count) (List.length r.r_groups);
+     List.iter (fun (fields, cnt) ->
+       pr " %d" (List.length fields);
+       List.iter (fun (c, v) -> pr_str c; pr_str v) fields;
+       pr " %d" (int_of_n cnt)) r.r_groups
+   | Err -> pr " ERR" | Panic -> pr " PANIC" | Hang -> pr " HANG");
+  pr "\n"
+
+let pr_schema tag qid (s : (str * str list) list) =
+  pr "%s %s OK %d" tag qid (List.length s);
+  List.iter (fun (c, vs) -> pr_str c; pr " %d" (List.length vs); List.iter pr_str vs) s;
+  pr "\n"
+
+let writer_of = function "mem" | "memdb" -> WMem | "big" -> WBig | w -> failwith ("writer " ^ w)
+
+let dp (lines : string list) =
+  let datasets : (string, row list) Hashtbl.t = Hashtbl.create 16 in
+  let stores : (string * writer_kind, store outcome) Hashtbl.t = Hashtbl.create 16 in
+  let indexes : (string * writer_kind * bool, index outcome) Hashtbl.t = Hashtbl.create 16 in
+  let get_store ds w =
+    match Hashtbl.find_opt stores (ds, w) with
+    | Some s -> s
+    | None -> let s = m_build_store w (Hashtbl.find datasets ds) in Hashtbl.replace stores (ds, w) s; s in
+  let get_index ds w pre =
+    match Hashtbl.find_opt indexes (ds, w, pre) with
+    | Some i -> i
+    | None ->
+      let i = (match get_store ds w with
+               | Ok s -> m_open_index pre s | Err -> Err | Panic -> Panic | Hang -> Hang) in
+      Hashtbl.replace indexes (ds, w, pre) i; i in
+  let rec go = function
+    | [] -> ()
+    | l :: rest ->
+      let c = { toks = tokens l } in
+      (match c.toks with
+       | [] -> go rest
+       | _ ->
+         (match next c with
+          | "DATASET" ->
+            let id = next c in let nrows = next_int c in
+            let rec take k acc ls = if k = 0 then (List.rev acc, ls) else
+                match ls with
+                | [] -> failwith "dataset truncated"
+                | rl :: ls' ->
+                  let rc = { toks = tokens rl } in
+                  if next rc <> "R" then failwith "expected R";
+                  let k' = next_int rc in
+                  let row = List.init k' (fun _ -> let a = next_str rc in let b = next_str rc in (a, b)) in
+                  take (k - 1) (row :: acc) ls' in
+            let (rows, rest') = take nrows [] rest in
+            Hashtbl.replace datasets id rows;
+            (* drop cached stores of a previous dataset with the same id *)
+            go rest'
+          | "DROP" ->
+            let id = next c in
+            Hashtbl.remove datasets id;
+            Hashtbl.filter_map_inplace (fun (d, _) v -> if d = id then None else Some v) stores;
+            Hashtbl.filter_map_inplace (fun (d, _, _) v -> if d = id then None else Some v) indexes;
+            go rest
+          | "QUERY" ->
+            let qid = next c in let ds = next c in let w = writer_of (next c) in
+            let pre = (next c = "preload") in
+            let spec = next_int c in
+            let e = next_expr c in
+            if next c <> "GB" then failwith "expected GB";
+            let m = next_int c in
+            let gb = List.init m (fun _ -> next_str c) in
+            let q = { q_expr = e; q_group_by = gb } in
+            let r = (match get_index ds w pre with
+                     | Ok ix -> m_execute ix q | Err -> Err | Panic -> Panic | Hang -> Hang) in
+            pr_result "Q" qid r;
+            if spec = 1 then pr_result "S" qid (spec_execute (Hashtbl.find datasets ds) q);
+            go rest
+          | "SCHEMA" ->
+            let qid = next c in let ds = next c in let w = writer_of (next c) in
+            (match get_index ds w false with
+             | Ok ix -> pr_schema "SCHEMA" qid (m_get_schema ix)
+             | Err -> pr "SCHEMA %s ERR\n" qid | Panic -> pr "SCHEMA %s PANIC\n" qid | Hang -> pr "SCHEMA %s HANG\n" qid);
+            pr_schema "SS" qid (spec_schema (Hashtbl.find datasets ds));
+            go rest
+          | "REOPEN" -> go rest
+          | "IDS" ->
+            let qid = next c in let ds = next c in let w = writer_of (next c) in
+            let rows = Hashtbl.find datasets ds in
+            let ids = (match w with WMem -> m_add_rows_mem rows | WBig -> m_add_rows_big rows) in
+            pr "IDS %s %d" qid (List.length ids); List.iter (fun i -> pr " %d" (int_of_n i)) ids; pr "\n";
+            go rest
+          | t -> failwith ("dp: bad line: " ^ l))) in
+  go lines
+
 let () =
   let prop = Sys.argv.(1) and path = Sys.argv.(2) in
   let lines = read_lines path in
   (match prop with
    | "c07" -> c07 lines
+   | "dp" -> dp lines
    | _ -> failwith ("unknown property " ^ prop));
   print_string (Buffer.contents out)
